@@ -89,6 +89,9 @@ func c12genLine(r *h.Rand) orb.LineString {
 	if r.P(1, 10) {
 		n = r.Range(0, 4)
 	}
+	if r.P(1, 80) {
+		n = []int{255, 256, 257, 511, 512, 513, 1023, 1025, 2049}[r.Intn(9)] // many vertices
+	}
 	integer := r.Bool()
 	ls := make(orb.LineString, 0, n)
 	x, y := 0.0, 0.0
